@@ -1078,4 +1078,49 @@ example :
   refine ⟨⟨by decide +kernel, rfl, by decide +kernel⟩, ?_, by decide +kernel⟩
   intro h; exact absurd h.2 (by decide +kernel)
 
+/-! ## 8. export histories: a re-export describes the shape as it is now
+
+In the model an in-place update is a new record and `toGeoJson` is a function of the record, so "export,
+update, export again" is the export of the updated record; the three corollaries below say what the second
+document must contain.  The `history` streams of the harness compare every export of a live object (after
+`set_dt`, `strip_dt`, `buffer_dt`, `set_property`, on copies, pickles, imported shapes and collection members)
+with the model applied to the updated fields. -/
+
+/-- after `set_dt(t)` the next export carries `t`, whatever was exported before -/
+theorem reexport_set_dt (rt : Rt) (s : Src) (o : Opts) (doc : J) (t : TI)
+    (hexp : toGeoJson rt (s.setDt (some t)) o = .ok doc) (hx : oget o.extra "properties" = none)
+    (h1 : oget (o.props.getD []) "datetime_start" = none) (h2 : oget (o.props.getD []) "datetime_end" = none) :
+    ∃ props, doc.propsOf = some props ∧
+      oget props "datetime_start" = some (.str (rt.iso t.start)) ∧
+      oget props "datetime_end" = some (.str (rt.iso t.stop)) :=
+  time_bounds_exported rt _ o doc t hexp hx rfl h1 h2
+
+/-- after `strip_dt()` the next export's `properties` are the user properties only (no stale time bounds) -/
+theorem reexport_strip_dt (rt : Rt) (s : Src) (o : Opts) (doc : J) (key : String)
+    (hexp : toGeoJson rt s.stripDt o = .ok doc) (hx : oget o.extra "properties" = none)
+    (hk : oget (o.props.getD []) key = none) :
+    ∃ props, doc.propsOf = some props ∧ oget props key = (oget s.props key).map (sanitize rt) := by
+  obtain ⟨p, hp, h⟩ := override_keeps_others rt s.stripDt o doc key hexp hx hk
+  exact ⟨p, hp, by rw [h]; rfl⟩
+
+/-- after `set_property(key, v)` the next export carries `v` under `key` (unless the key is shadowed by the
+    time bounds or overridden by the caller) -/
+theorem reexport_set_property (rt : Rt) (s : Src) (o : Opts) (doc : J) (key : String) (v : J)
+    (hexp : toGeoJson rt (s.setProperty key v) o = .ok doc) (hx : oget o.extra "properties" = none)
+    (hk : oget (o.props.getD []) key = none)
+    (hks : key ≠ "datetime_start") (hke : key ≠ "datetime_end") :
+    ∃ props, doc.propsOf = some props ∧ oget props key = some (sanitize rt v) := by
+  obtain ⟨p, hp, h⟩ := override_keeps_others rt (s.setProperty key v) o doc key hexp hx hk
+  refine ⟨p, hp, ?_⟩
+  rw [h]
+  have : oget (properties (s.setProperty key v)) key = some v := by
+    simp only [properties, Src.setProperty]
+    cases s.dt with
+    | none => exact oget_oset_self _ _ _
+    | some t =>
+      simp only
+      rw [oget_oset_ne _ _ _ _ (Ne.symm hke), oget_oset_ne _ _ _ _ (Ne.symm hks)]
+      exact oget_oset_self _ _ _
+  rw [this]; rfl
+
 end GV.GeoJson
